@@ -2,6 +2,7 @@
 # usage: tools/eval_seed.sh Cxx [check ids...]   - confirms a seeded change produced in /tmp/wt/Cxx (+ /tmp/wt/Cxx-out),
 # stores it under /verif/seeded/Cxx, runs the checks against it (default: the property's own check), removes the worktree.
 P=$1; shift; CHECKS=${*:-$P}
+S=${SEEDSUF:-}   # e.g. SEEDSUF=-2 for a second seeded change of the same property
 W=/tmp/wt/$P; O=/tmp/wt/$P-out
 [ -f $O/patch.diff ] || { echo "no patch for $P"; exit 2; }
 cd $W || exit 2
@@ -12,15 +13,16 @@ D1=$(cargo test --offline --features test-utils --test demo_$P 2>&1 | grep -E "^
 git apply -R $O/patch.diff
 D0=$(cargo test --offline --features test-utils --test demo_$P 2>&1 | grep -E "^test result|error(\[|:)" | head -2 | tr '\n' ' ')
 echo "existing tests with patch : $T1"; echo "demo with patch           : $D1"; echo "demo without patch        : $D0"
-mkdir -p /verif/seeded/$P; cp $O/patch.diff $O/demo.rs /verif/seeded/$P/; cp $O/notes.md /verif/seeded/$P/notes.md 2>/dev/null
+mkdir -p /verif/seeded/$P$S; cp $O/patch.diff $O/demo.rs /verif/seeded/$P$S/; cp $O/notes.md /verif/seeded/$P$S/notes.md 2>/dev/null
 cd /verif
-OUT=$(tools/try_mutant.sh /verif/seeded/$P/patch.diff $CHECKS 2>&1 | grep -E "^===|^VIOLATION|^OK|^KNOWN")
+OUT=$(tools/try_mutant.sh /verif/seeded/$P$S/patch.diff $CHECKS 2>&1 | grep -E "^===|^VIOLATION|^OK|^KNOWN")
 echo "$OUT"
-python3 - "$P" "$T1" "$D1" "$D0" "$OUT" "$CHECKS" <<'PY'
+python3 - "$P" "$T1" "$D1" "$D0" "$OUT" "$CHECKS" "$S" <<'PY'
 import sys, json, os, glob
-p, t1, d1, d0, out, checks = sys.argv[1:7]
+p, t1, d1, d0, out, checks, suf = sys.argv[1:8]
+d = p + suf
 ok = ('33 passed' in t1) and ('FAILED' in d1 or 'failed' in d1 and '0 failed' not in d1) and ('ok.' in d0 and '0 failed' in d0)
-notes = open(f'/verif/seeded/{p}/notes.md').read() if os.path.exists(f'/verif/seeded/{p}/notes.md') else ''
+notes = open(f'/verif/seeded/{d}/notes.md').read() if os.path.exists(f'/verif/seeded/{d}/notes.md') else ''
 detected = [l for l in out.split('\n') if l.startswith('VIOLATION')]
 rep = {}
 for l in detected:
@@ -30,7 +32,7 @@ for l in detected:
 meta = {'property': p, 'confirmed': ok, 'existing_tests_with_patch': t1, 'demo_with_patch': d1, 'demo_without_patch': d0,
         'checks_run': checks.split(), 'check_output': out.split('\n'), 'detected_by': sorted(rep), 'replays': rep,
         'needs_to_manifest': notes[:1500]}
-json.dump(meta, open(f'/verif/seeded/{p}/meta.json', 'w'), indent=1)
+json.dump(meta, open(f'/verif/seeded/{d}/meta.json', 'w'), indent=1)
 print('confirmed' if ok else 'NOT CONFIRMED', '| detected by', sorted(rep) or 'NOTHING')
 PY
 git -C /repo worktree remove --force $W 2>/dev/null; rm -rf $O
